@@ -317,14 +317,51 @@ func c13genResDeep(r *rand.Rand, minChunks, span int) *c13Case {
 	return &c13Case{Cfg: c, Payload: payload, Pieces: pieces, Dicts: dicts}
 }
 
+// c13genDeep3 draws a three-level index: more than 255*255 one-byte chunks.
+// It costs 10..30 CPU seconds (a codec reset per chunk): one case per quick
+// run (lz4), one per shard in the thorough tier.
+func c13genDeep3(r *rand.Rand, quick bool) *c13Case {
+	var c c13Cfg
+	c.Codec = "lz4" // the cheapest per chunk
+	if !quick && r.Intn(2) == 0 {
+		c.Codec = "zlib"
+	}
+	c.DChunk = 1
+	if r.Intn(2) == 0 {
+		c.CPage = c13pick(r, c13pages[:2])
+	}
+	c.AtStart = r.Intn(2) == 0
+	c.Temp = "nil"
+	if c.AtStart {
+		c.Temp = []string{"rawbuf", "lbuf", "lseek"}[r.Intn(3)]
+	}
+	c.Sink = "log"
+	c.RSKind = "readerat"
+	c.PClass = []string{"zshort", "random", "text"}[r.Intn(3)]
+	// 255*255+1 .. 255*256 chunks: 256 first-level branch nodes, so the last
+	// second-level group has a single member.
+	n := 255*255 + 1 + r.Intn(255)
+	if !quick && r.Intn(2) == 0 {
+		n += r.Intn(2000)
+	}
+	c.PLen = n
+	payload := c13payload(r, c.PClass, n, nil)
+	c.Part = "fixed"
+	pieces := c13partition(r, "fixed", n, 4096, false)
+	c.NWrites = len(pieces)
+	return &c13Case{Cfg: c, Payload: payload, Pieces: pieces}
+}
+
 // c13gen draws one case. small = few chunks and few underlying calls, so that
 // an exhaustive fault sweep is cheap.
 func c13gen(r *rand.Rand, thorough, small bool, force string) *c13Case {
 	switch force {
+	case "deep3":
+		return c13genDeep3(r, !thorough)
 	case "resdeep2":
 		return c13genResDeep(r, 260, 140) // two leaf-level branch nodes
 	case "resdeep3":
-		return c13genResDeep(r, 520, 100) // three
+		return c13genResDeep(r, 512, 30) // three
 	}
 	zstd := force == "zstd"
 	var c c13Cfg
@@ -1410,7 +1447,7 @@ func (ck *c13Checker) faultFree() (cls string, out *c13Out) {
 }
 
 // sweep re-runs the case with the k-th underlying call failing, for every k.
-func (ck *c13Checker) sweep(cls string) {
+func (ck *c13Checker) sweep(cls string, maxRuns int) {
 	rc := ck.rc
 	// Faults need the instrumented sink and temp file.
 	cs := *ck.cs
@@ -1436,6 +1473,16 @@ func (ck *c13Checker) sweep(cls string) {
 	if cs.Cfg.Temp != "nil" {
 		tgts = append(tgts, tgt{"tw", "err", base.NTW}, tgt{"tw", "short", base.NTW},
 			tgt{"tr", "err", base.NTR}, tgt{"tr", "eof", base.NTR}, tgt{"ts", "err", base.NTS})
+	}
+	// The caller's estimate of the call count can be off (a raw temp file hides
+	// its calls); the exact number of re-runs is known here. Bounded by count.
+	total := 0
+	for _, t := range tgts {
+		total += t.n
+	}
+	if total > maxRuns {
+		rc.Count("fault_sweep_skipped_too_many_calls", 1)
+		return
 	}
 	nops := len(cs.Pieces) + 2
 	opName := func(i int) string {
@@ -1619,7 +1666,8 @@ func c13sweepOK(cfg *c13Cfg, out *c13Out, npieces int, thorough bool, phase stri
 	}
 	calls := out.NW + out.NTW + out.NTR + out.NTS
 	if cfg.Temp == "rawbuf" || cfg.Temp == "rawfile" || cfg.Temp == "rawfile-off" {
-		calls += out.NW // the temp-file calls are not counted yet; roughly as many
+		// a raw temp file hides its calls: every chunk and every padding is one
+		calls += 2*out.Spy.compress + 8
 	}
 	limit := 24
 	if thorough {
@@ -1632,8 +1680,8 @@ func c13sweepOK(cfg *c13Cfg, out *c13Out, npieces int, thorough bool, phase stri
 		// every re-run costs seconds: only tiny histories, only in the
 		// thorough tier's fault phase
 		limit = 0
-		if thorough && phase == "flt" {
-			limit = 8
+		if thorough && phase == "flt" && out.SinkLog != nil && (cfg.Temp == "nil" || out.TempLog != nil) {
+			limit = 8 // the call count is exact only with the instrumented sink and temp file
 		}
 	}
 	if calls > limit || npieces > 64 {
@@ -1672,6 +1720,9 @@ func C13(rc *vk.Rec) {
 			case ph.phase == "rt" && thorough && idx%20 == 3, ph.phase == "rt" && !thorough && idx%30 == 3,
 				ph.phase == "flt" && thorough && idx%50 == 49:
 				force = "zstd"
+			case ph.phase == "rt" && !race && ((thorough && idx == 77) || (!thorough && idx == 45 && rc.Shard == 7)):
+				// > 255*255 chunks: once per thorough shard, once per quick run
+				force = "deep3"
 			case ph.phase == "rt" && idx%60 == 17 && !race && (thorough || rc.Shard%4 == 1):
 				// costs seconds (a fresh zlib.Writer per dictionary trial):
 				// 4 cases in the quick tier, 1 in 60 in the thorough tier
@@ -1683,7 +1734,11 @@ func C13(rc *vk.Rec) {
 			ck := &c13Checker{rc: rc, phase: ph.phase, idx: idx, cs: c13gen(r, thorough, ph.phase == "flt", force)}
 			cls, out := ck.faultFree()
 			if cls != "" && !race && c13sweepOK(&ck.cs.Cfg, out, len(ck.cs.Pieces), thorough, ph.phase, idx) {
-				ck.sweep(cls)
+				maxRuns := 500
+				if ck.cs.Cfg.Codec == "zstd" {
+					maxRuns = 30
+				}
+				ck.sweep(cls, maxRuns)
 			}
 		}
 	}
